@@ -27,6 +27,7 @@ META = {
             "a gzip-compressed graph whose name does not end in .gz"],
     "assumptions": ["file stub contract of DESIGN 3.2 (tell before readline = cookie of that line; BGZF yields bytes; gzip.open('rt') yields str)"],
 }
+META["explanation"] += '  gaf/stat-same-path: the same path holds the plain file first and its BGZF copy later in one execution, and the other way round.'
 
 LINES = [
     "r0\t50\t0\t10\t+\t>s0>s1\t25\t2\t12\t9\t10\t60\ttp:A:P\tNM:i:-1\tcg:Z:5=1X4=\n",
@@ -54,7 +55,7 @@ def setup():
     M.update(GA=GA, S=S, ST=ST, P=P, FP=FP, O=O, G=G, V=IF.M["V"], I=IF.M["I"])
 
 
-CONSUMERS = ["reader", "index", "index-stable", "sort", "view-whole", "view-format", "view-nodes", "stat", "phase"]
+CONSUMERS = ["reader", "index", "index-stable", "sort", "view-whole", "view-format", "view-nodes", "stat", "phase", "stat-same-path"]
 GRAPH_CONSUMERS = ["view-format", "index-stable", "sort", "find_path", "order_gfa", "order_gfa-bychrom"]
 
 
@@ -198,6 +199,17 @@ def build(params):
                     ST.run_stat("p.gaf", cigar_stat=cg, output="o1.txt")
                     ST.run_stat("z.gaf.gz", cigar_stat=cg, output="o2.txt")
                     r = same_lines(e.files["o1.txt"].lines, e.files["o2.txt"].lines, "stat report")
+                    if r:
+                        return r
+                return None
+            if cons == "stat-same-path":
+                # the same path holds the plain file first and its BGZF copy later in the same process (sort --bgzip onto an existing
+                # name does this), and the other way round under another name
+                for name, kinds in (("x.gaf", ("text", "bgzf")), ("y.gaf", ("bgzf", "text"))):
+                    for j, k in enumerate(kinds):
+                        put(e, name, lines, k, tc if k == "text" else zc)
+                        ST.run_stat(name, cigar_stat=True, output="o%d.txt" % j)
+                    r = same_lines(e.files["o0.txt"].lines, e.files["o1.txt"].lines, "stat report of %s rewritten as %s" % (name, kinds[1]))
                     if r:
                         return r
                 return None
@@ -406,6 +418,16 @@ def replay(params, model, wd):
                     ST.run_stat(gaf, cigar_stat=cg, output=out("o1%d" % cg))
                     ST.run_stat(zgaf, cigar_stat=cg, output=out("o2%d" % cg))
                     pairs.append((read(out("o1%d" % cg)), read(out("o2%d" % cg))))
+            elif cons == "stat-same-path":
+                import shutil
+
+                for name, kinds in (("x.gaf", ("text", "bgzf")), ("y.gaf", ("bgzf", "text"))):
+                    reps = []
+                    for j, k in enumerate(kinds):
+                        shutil.copyfile(gaf if k == "text" else zgaf, out(name))
+                        ST.run_stat(out(name), cigar_stat=True, output=out("%s.o%d" % (name, j)))
+                        reps.append(read(out("%s.o%d" % (name, j))))
+                    pairs.append((reps[0], reps[1]))
             elif cons == "phase":
                 open(out("h.tsv"), "w").write("r0\tH1\t7\tchr1\nr2\tnone\tnone\tchr1\n")
                 P.run(gaf, out("h.tsv"), out("o1"))
